@@ -18,7 +18,7 @@ func init() {
 	register(&Rule{Name: "LINT-IDXCROSS", Floor: 1, Run: ruleIdxCross, Fixture: "fixture.crossIndexed",
 		Doc: "in nested loops an index is used on the list it counts: the index of the loop over one collection is not applied to a list that was made with the length of another collection being looped over at that place (policies[j].qualifiers[i] for policies[i].qualifiers[j]); an array is indexed by a constant below its length, by the index of a loop over a collection whose length was tested against the array's, or behind a comparison with its length - not by a value that merely was parsed from the input"})
 	register(&Rule{Name: "LINT-GUARDFIELD", Floor: 1, Run: ruleGuardField, Fixture: "fixture.testsOneUsesOther",
-		Doc: "a block entered because one field of a configuration struct was found non-empty uses that field: it does not parse or copy a like-typed sibling field of the same struct while never looking at the field that was tested (`if len(n.Url) > 0 { oid = parse(n.Oid) }`)"})
+		Doc: "a block entered because one field of a configuration struct was found non-empty uses that field: it does not parse or copy a like-typed sibling field of the same struct while never looking at the field that was tested (`if len(n.Url) > 0 { oid = parse(n.Oid) }`); likewise for optional values kept as pointers: behind `m.A != nil` no like-typed sibling `*m.B` is dereferenced while m.A is never read (the manipulation that was given is ignored, the one that was not is a nil dereference)"})
 }
 
 // ---- loops and the collections they count -------------------------------------------------------------------
@@ -265,15 +265,27 @@ func ruleGuardField(c *Ctx, r *Rep) {
 				continue
 			}
 			x, empty, ok := emptyTestOf(iff.Cond, true)
+			isPtr := false
 			if !ok {
-				continue
+				// the same for optional values kept as pointers: `if m.A != nil { use(*m.B) }` dereferences a pointer
+				// nobody tested and ignores the one that was
+				var isNil bool
+				x, isNil, ok = nilTestOf(iff.Cond, true)
+				if !ok {
+					continue
+				}
+				if _, p := x.Type().Underlying().(*types.Pointer); !p {
+					continue
+				}
+				empty, isPtr = isNil, true
 			}
 			base, fld, st := fieldRead(x)
 			if fld == nil {
 				continue
 			}
-			// only structs of the configuration layer (json-tagged): that is where like-typed siblings sit side by side
-			if !hasJSONTags(st) {
+			// only structs of the configuration layer (json-tagged, or a struct of optional pointers of the module):
+			// that is where like-typed siblings sit side by side
+			if !hasJSONTags(st) && !isPtr {
 				continue
 			}
 			// the region entered when the field is NOT empty
@@ -307,6 +319,20 @@ func ruleGuardField(c *Ctx, r *Rep) {
 					if f2 == fld {
 						usesTested = true
 					} else if types.Identical(f2.Type(), fld.Type()) && valueUsed(v) {
+						if isPtr {
+							// only a dereference of the sibling counts (handing the pointer on leaves the test to the receiver)
+							deref := false
+							if v.Referrers() != nil {
+								for _, u := range *v.Referrers() {
+									if ld, isLd := u.(*ssa.UnOp); isLd && ld.Op == token.MUL && ld.X == v {
+										deref = true
+									}
+								}
+							}
+							if !deref {
+								continue
+							}
+						}
 						siblings = append(siblings, f2.Name())
 					}
 				}
@@ -316,7 +342,7 @@ func ruleGuardField(c *Ctx, r *Rep) {
 			}
 			sort.Strings(siblings)
 			n++
-			r.Bad(sprintf("tested-field-used|%s#%d", c.FuncKey(fn), n), c.Pos(iff.Pos()), "the block behind a presence test of ."+fld.Name()+" uses ."+fld.Name(),
+			r.Bad(sprintf("tested-field-used|%s#%d", c.FuncKey(fn), n), c.Pos(iff.Cond.Pos()), "the block behind a presence test of ."+fld.Name()+" uses ."+fld.Name(),
 				"it never reads ."+fld.Name()+" but reads the like-typed ."+strings.Join(uniq(siblings), ", ."))
 		}
 	}
